@@ -8,12 +8,13 @@ from harness.impl_loc import enc_loc
 
 ID = "C05"
 LEAN_MODULE = "BioCantor.Props.C05"
+EXTRA_LEAN_MODULES = ["BioCantor.Props.C05Ties2"]   # tie: regenerated construct_frames_from_location = hand model
 DESIGN_REF = "4/C05"
 DRIVER = "drivers/C05.lean"
 SPEC_DRIVER = "drivers/SpecC05.lean"
 DRIVER_MODULES = ["BioCantor.Driver.Main", "BioCantor.Driver.CDS"]
 SPEC_DRIVER_MODULES = ["BioCantor.Driver.Main", "BioCantor.Driver.SpecCDS"]
-GEN_NEEDS = ["CDSFrame_shift", "CDSFrame_to_phase", "CDSPhase_to_frame", "gencode", "startCodons", "aacodons"]
+GEN_NEEDS = ["CDSInterval_construct_frames_from_location", "CDSFrame_shift", "CDSFrame_to_phase", "CDSPhase_to_frame", "gencode", "startCodons", "aacodons"]
 RULE = ("exhaustive small exon layouts (see exhaustive_scope) x both strands x every frame vector (consistent and "
         "frameshifted) x every codon window, then sequence-bearing and random larger CDS (up to 6 exons); a case is "
         "non-trivial when the CDS has at least one complete codon by the reference walk of the generator and the real "
